@@ -81,6 +81,9 @@ PROPS = {
     },
     "C04": {
         "parts": [
+            {"engine": "D", "crate": "d_net", "harnesses": [
+                {"name": "c04_unverified_put", "covers": ["put", "oversized", "unparseable", "forwarded"], "quick": {"max_paths": 1000, "timeout": 300}},
+            ]},
             {"engine": "D", "crate": "d_node", "harnesses": [
                 {"name": "c04_key_binding", "covers": ["foreign_key", "derived_key"], "quick": {"max_paths": 1000, "timeout": 600}},
                 {"name": "c07_union", "only": ["tx:foreign_owner_entry_never_stored", "no_panic"], "covers": ["transactions"], "quick": {"max_paths": 1000, "timeout": 600}},
@@ -88,7 +91,7 @@ PROPS = {
         ],
         "assumptions": NODE_ASSUMPTIONS,
         "bounds": {"quick": "4 record kinds x 3 acceptance paths (paid client put, unpaid update, replication) x {derived key, foreign key}; the foreign key is also held where the path requires a held record"},
-        "outside": ["RecordStore::put (libp2p inbound path: unverified records are only forwarded as events)", "rmp decoding of adversarial bytes", "SHA-3 as the chunk name function (real code runs on concrete bytes)"],
+        "outside": ["rmp decoding of adversarial bytes", "SHA-3 as the chunk name function (real code runs on concrete bytes)"],
     },
     "C05": {
         "parts": [
